@@ -39,9 +39,63 @@ def setup():
 
 
 def replay(path):
+    """Re-runs exactly the violating case from the CURRENT $VERIF_REPO (default /repo) working tree, twice, and prints both observations."""
     with open(path) as f:
         d = json.load(f)
-    print(json.dumps(d, indent=1))
+    det = d.get("detail", {})
+    eng = det.get("engine")
+    print("property: %s\nwhat: %s\n" % (d.get("property"), d.get("what")))
+    if eng == "E2":
+        p = e2.Prog("replay", det["ref_body"], det["mac_body"], [det.get("row") or [0]], det.get("cmp") or "Full", pre=det.get("pre") or "", meta={"dsl": det.get("dsl"), "ref": det.get("reference")})
+        for k in (1, 2):
+            fr = e2.run_family("replay", [p], shards=1, extra_header=det.get("extra_header") or "", deps_override=det.get("deps_override"))
+            if fr.compile_violations:
+                print("run %d: the macro invocation does not compile (the reference does):\n%s" % (k, fr.compile_violations[0][1][:1500]))
+            elif fr.mismatches:
+                mm = fr.mismatches[0][1]
+                print("run %d: MISMATCH on row %s\n  reference: %s\n  macro:     %s" % (k, mm["row"], json.dumps(mm["ref"]), json.dumps(mm["mac"])))
+            else:
+                print("run %d: macro and reference agree on row %s: %s" % (k, det.get("row"), json.dumps(fr.results["replay"].get("sample"))))
+        return 0
+    if eng in ("E3-T", "E3-A"):
+        ex = det["execution"]
+        if eng == "E3-T":
+            from . import e3t
+
+            tp = det["tprog"]
+            q = e3t.TProg("replay", det["ref_body"], det["mac_body"], rows=[ex["row"]], depths=tp["depths"], callers=tp["callers"], check_threads=tp["check_threads"], names=[tuple(x) for x in tp["names"]], pbound=tp["pbound"], maxd=tp["maxd"])
+            exe, cv = e3t.build("replay", {"replay": [q]})
+            for k in (1, 2):
+                res = e3t.run_set(exe, "replay", [q] if not cv else [], shards=1)
+                print("run %d: %d schedules explored for fault row %s; %d violating" % (k, res.executions, ex["row"], sum(n for _, _, n in res.violations[:1])))
+                for _, v, n in res.violations[:1]:
+                    print("  schedule %s (caller %s): %s\n  value %s\n  ops %s" % (v["schedule"], v["caller"], v["what"], v["value"], v["ops"]))
+        else:
+            from . import e3a
+
+            ap = det["aprog"]
+            q = e3a.AProg("replay", det["ref_body"], det["mac_body"], ap["gates"], [tuple(x) for x in ap["gate_of"]], ap["depths"], rows=[ex["row"] or [0]], spurious=ap["spurious"], maxd=ap["maxd"])
+            exe, cv = e3a.build("replay", {"replay": [q]})
+            for k in (1, 2):
+                res = e3a.run_set(exe, "replay", [q] if not cv else [], shards=1)
+                print("run %d: %d decision sequences explored for fault row %s; %d violating" % (k, res.executions, ex["row"], sum(n for _, _, n in res.violations[:1])))
+                for _, v, n in res.violations[:1]:
+                    print("  decisions %s: %s\n  value %s\n  log %s" % (v["decisions"], v["what"], v["value"], v["log"]))
+        return 0
+    if eng == "E1" and det.get("input") is not None and det.get("config"):
+        from . import e1
+
+        exe = e1.build()
+        tmp = os.path.join(e2.WORK, "replay_input.txt")
+        with open(tmp, "w") as fh:
+            fh.write(det["input"])
+        import subprocess
+
+        for k in (1, 2):
+            p = subprocess.run([exe, "expand", det["config"], tmp], stdout=subprocess.PIPE, stderr=subprocess.PIPE, text=True)
+            print("run %d: %s!{ %s } ->\n  %s" % (k, det["config"], det["input"], p.stdout.strip()[:1500]))
+        return 0
+    print(json.dumps(d, indent=1)[:6000])
     return 0
 
 
@@ -58,14 +112,16 @@ def judge_family(rep, fr, progs_meta_key="dsl", what_prefix=""):
         rep.violate(
             "%s | compile" % p.meta.get("dsl", p.id),
             "%smacro output does not compile where the documented form does: %s  [%s]" % (what_prefix, p.meta.get("dsl", p.id), first),
-            {"program": p.id, "dsl": p.meta.get("dsl"), "reference": p.meta.get("ref"), "rustc": rendered, "mac_body": p.mac, "ref_body": p.ref},
+            {"program": p.id, "dsl": p.meta.get("dsl"), "reference": p.meta.get("ref"), "rustc": rendered, "mac_body": p.mac, "ref_body": p.ref, "pre": p.pre,
+             "engine": "E2", "family": fr.name, "extra_header": fr.extra_header, "deps_override": fr.deps_override, "cmp": p.cmp, "row": [0]},
         )
     for p, mm, n in fr.mismatches:
         rep.violate(
             "%s | row %s" % (p.meta.get("dsl", p.id), mm["row"]),
             "%s%s on input row %s: reference %s / macro %s (%d rows differ)"
             % (what_prefix, p.meta.get("dsl", p.id), mm["row"], json.dumps(mm["ref"])[:300], json.dumps(mm["mac"])[:300], n),
-            {"program": p.id, "dsl": p.meta.get("dsl"), "reference": p.meta.get("ref"), "mismatch": mm, "mac_body": p.mac, "ref_body": p.ref, "pre": p.pre},
+            {"program": p.id, "dsl": p.meta.get("dsl"), "reference": p.meta.get("ref"), "mismatch": mm, "mac_body": p.mac, "ref_body": p.ref, "pre": p.pre,
+             "engine": "E2", "family": fr.name, "extra_header": fr.extra_header, "deps_override": fr.deps_override, "cmp": p.cmp, "row": mm["row"]},
         )
 
 
@@ -92,11 +148,19 @@ def c01(tier, rep):
     fro = e2.run_family("c01operands", op, extra_header=fo.PRE)
     judge_family(rep, fro)
     rep.set("operand_corpus_programs", len(op))
+    ap, _ = fam_chains.async_chain_programs(2 if tier == "quick" else 3, stats=stats)
+    fra = e2.run_family("c01async", ap, extra_header=fam_chains.ASYNC_HEADER)
+    judge_family(rep, fra)
+    rep.set("async_chain_programs", len(ap))
+    sp = fam_chains.spawn_chain_programs(1 if tier == "quick" else 2, ("join_spawn", "try_join_spawn", "spawn", "try_spawn"))
+    frs = e2.run_family("c01spawn", sp)
+    judge_family(rep, frs)
+    rep.set("spawn_chain_programs", len(sp))
     rep.set("states", len(stats["kinds"]))
     rep.set("transitions", len(stats["rows"]))
     rep.set("operator_pairs", len(stats["pairs"]))
     rep.set("operator_triples", len(stats["triples"]))
-    rep.set("rule", "all paths of the typed operator transition system (%s); every program runs on every row of its start kind's input table and is compared, value and full callback trace, with the documented method chain compiled in the same binary; non-trivial = trace non-empty and >= 2 distinct outcomes over its rows; operand corpus: 16 operator sites x every operand form of its role (typed / untyped / move closures, fn paths, turbofish, parenthesised, closure-returning calls, closures with operator look-alikes and return types, block captures, nested macro calls) x every following operator; initial-operand corpus: 30 initial expressions (unary, binary, cast, reference, comparison, if/match, closure, range, tuple/array) x {single branch, second branch, let}" % bound)
+    rep.set("rule", "all paths of the typed operator transition system (%s); every program runs on every row of its start kind's input table and is compared, value and full callback trace, with the documented method chain compiled in the same binary; non-trivial = trace non-empty and >= 2 distinct outcomes over its rows; operand corpus: 16 operator sites x every operand form of its role (typed / untyped / move closures, fn paths, turbofish, parenthesised, closure-returning calls, closures with operator look-alikes and return types, block captures, nested macro calls) x every following operator; initial-operand corpus: 30 initial expressions (unary, binary, cast, reference, comparison, if/match, closure, range, tuple/array) x {single branch, second branch, let}; async: every path of the async table (futures 0.3 FutureExt/TryFutureExt/StreamExt/TryStreamExt rows) of length <= %d ending in a future, in join_async!/try_join_async!; thread-spawning kinds and aliases: every chain of length <= %d as first branch of a two-branch program" % (bound, 2 if tier == "quick" else 3, 1 if tier == "quick" else 2))
     for p in progs[:: max(1, len(progs) // 5)][:5]:
         rep.sample({"dsl": p.meta["dsl"], "reference": p.meta["ref"], "result": fr.results.get(p.id, {}).get("sample")})
 
@@ -193,7 +257,8 @@ def judge_classes(rep, fr, want):
         rep.violate(
             "%s | row %s" % (p.meta["dsl"], mm["row"]),
             "%s on fault row %s: reference %s / macro %s" % (p.meta["dsl"], mm["row"], json.dumps(mm["ref"])[:300], json.dumps(mm["mac"])[:300]),
-            {"program": p.id, "dsl": p.meta["dsl"], "reference": p.meta["ref"], "mismatch": mm, "mac_body": p.mac, "ref_body": p.ref},
+            {"program": p.id, "dsl": p.meta["dsl"], "reference": p.meta["ref"], "mismatch": mm, "mac_body": p.mac, "ref_body": p.ref, "pre": p.pre,
+             "engine": "E2", "family": fr.name, "extra_header": fr.extra_header, "deps_override": fr.deps_override, "cmp": p.cmp, "row": mm["row"]},
         )
     rep.set("mismatches_of_other_class_left_to_sibling_property", other)
 
@@ -260,7 +325,8 @@ def run_threads(rep, tier, setname, what, keep=None):
         rep.violate(
             "%s | row %s | caller %s" % (p.meta.get("dsl", p.id), v["row"], v["caller"]),
             "%s: %s [%s; fault row %s, caller %s, schedule %s; %d failing schedules]" % (what, v["what"], p.meta.get("dsl", p.id)[:300], v["row"], v["caller"], v["schedule"], n),
-            {"program": p.id, "dsl": p.meta.get("dsl"), "reference": p.meta.get("ref"), "execution": v, "mac_body": p.mac, "ref_body": p.ref, "engine": "E3-T"},
+            {"program": p.id, "dsl": p.meta.get("dsl"), "reference": p.meta.get("ref"), "execution": v, "mac_body": p.mac, "ref_body": p.ref, "engine": "E3-T",
+             "tprog": {"depths": p.depths, "callers": p.callers, "check_threads": p.check_threads, "names": p.names, "pbound": p.pbound, "maxd": p.maxd}},
         )
     for p in progs[:: max(1, len(progs) // 3)][:3]:
         rep.sample({"dsl": p.meta.get("dsl"), "execution": res.results[p.id].get("sample"), "schedules": res.results[p.id]["executions"]})
@@ -320,7 +386,8 @@ def run_async(rep, tier, setname, what, keep=None):
         rep.violate(
             "%s | row %s" % (p.meta.get("dsl", p.id), v["row"]),
             "%s: %s [%s; fault row %s, decisions %s; %d failing decision sequences]" % (what, v["what"], p.meta.get("dsl", p.id)[:300], v["row"], v["decisions"][:300], n),
-            {"program": p.id, "dsl": p.meta.get("dsl"), "reference": p.meta.get("ref"), "execution": v, "mac_body": p.mac, "ref_body": p.ref, "engine": "E3-A"},
+            {"program": p.id, "dsl": p.meta.get("dsl"), "reference": p.meta.get("ref"), "execution": v, "mac_body": p.mac, "ref_body": p.ref, "engine": "E3-A",
+             "aprog": {"gates": p.gates, "gate_of": p.gate_of, "depths": p.depths, "spurious": p.spurious, "maxd": p.maxd}},
         )
     for p in progs[:: max(1, len(progs) // 3)][:3]:
         rep.sample({"dsl": p.meta.get("dsl"), "execution": res.results[p.id].get("sample"), "decision_sequences": res.results[p.id]["executions"]})
